@@ -8,6 +8,7 @@
 import DtnVerif.Lemmas.TcpclSys
 import DtnVerif.Lemmas.TcpclSysLift
 import DtnVerif.Lemmas.TcpclEcho
+import DtnVerif.Lemmas.TcpclAckSeqInv
 namespace DtnVerif
 namespace Tcpcl
 
@@ -169,6 +170,30 @@ theorem C04_ack_echo_sys (cfgA cfgB : Cfg) (sch : List SysEv)
     (fun e ev h => ⟨rxInv_step e ev h.1, echoInv_step e ev h.1 h.2⟩)
     (fun cfg => ⟨rxInv_init cfg, echoInv_init cfg⟩) cfgA cfgB sch
   exact ⟨fun x hx => lift tB (both.2.2 x hx), fun x hx => lift tA (both.1.2 x hx)⟩
+
+/-- **One acknowledgement per accepted segment, in order.** Against any peer and any schedule, the
+    XFER_ACK messages the endpoint has emitted are exactly — no more, no fewer, same order — the
+    acknowledgements the ideal receiver owes for the message sequence it has processed: one per
+    accepted segment, with that segment's flags and transfer id and the cumulative length so far. -/
+theorem C04_ack_sequence (cfg : Cfg) (evs : List Ev) :
+    acksOf (runEp { cfg := cfg } evs).emitted = specAcks (runEp { cfg := cfg } evs).processed :=
+  ackSeq_run evs _ (rxInv_init cfg) (ackSeq_init cfg)
+
+/-- the same at both endpoints of the two-endpoint system, where what is processed is a prefix of
+    what the peer emitted (`C01_transport`) -/
+theorem C04_ack_sequence_sys (cfgA cfgB : Cfg) (sch : List SysEv) :
+    let s := runSys (initSys cfgA cfgB) sch
+    acksOf s.a.emitted = specAcks s.a.processed ∧ acksOf s.b.emitted = specAcks s.b.processed := by
+  intro s
+  have both := sys_lift_init (fun e => RxInv e ∧ AckSeqInv e)
+    (fun e ev h => ⟨rxInv_step e ev h.1, ackSeq_step e ev h.1 h.2⟩)
+    (fun cfg => ⟨rxInv_init cfg, ackSeq_init cfg⟩) cfgA cfgB sch
+  exact ⟨both.1.2, both.2.2⟩
+
+/-- non-vacuity: a START segment, a foreign non-START segment (ignored), the END segment -/
+example : specAcks [.contact 0, .sessInit 0 10 10 [] [], .xferSegment 2 5 [] [1, 2], .xferSegment 0 6 [] [9],
+      .xferSegment 1 5 [] [3]]
+    = [.xferAck 2 5 2, .xferAck 1 5 3] := by decide
 
 end Tcpcl
 end DtnVerif
